@@ -268,6 +268,151 @@ SK["_do_download"] = '''def _do_download(logger: logging.Logger, filename: str, 
     return (output_file, False)'''
 
 
+# ---- comparing normalised with normalised (T1_NORMALIZE.md) --------------------------------------------------------
+
+def _template(name: str) -> Tuple[ast.AST, List[int]]:
+    """The recorded shape, normalised like the source (T.parse_src: no annotations / docstrings / effect-free log lines),
+    with its holes renumbered in traversal order; returns (function, old hole number of every remaining hole)."""
+    mod = T.parse_src(SK[name], filename=f"<recorded shape of {name}>")
+    fns = [n for n in mod.body if isinstance(n, (ast.FunctionDef, ast.AsyncFunctionDef))]
+    if len(fns) != 1:
+        raise TranslateError(f"recorded shape of {name} is not one function")
+    return fns[0], []
+
+
+def _renumber(fn: ast.AST) -> Tuple[str, List[int]]:
+    olds: List[int] = []
+
+    class Rn(ast.NodeTransformer):
+        def visit_Name(self, n: ast.Name) -> ast.AST:
+            m = re.fullmatch(r"K(\d+)", n.id)
+            if m:
+                olds.append(int(m.group(1)))
+                return ast.copy_location(ast.Name(id="K%d" % (len(olds) - 1), ctx=n.ctx), n)
+            return n
+
+    fn = Rn().visit(copy.deepcopy(fn))
+    ast.fix_missing_locations(fn)
+    return ast.unparse(fn), olds
+
+
+# the state of LinksHTMLParser the Gallina model (model/IndexPageC14.v: pstate) transcribes
+PARSER_STATE = {"url", "dists", "active_link", "active_skip"}
+PARSER_METHODS = {"LinksHTMLParser.__init__", "handle_starttag", "handle_endtag", "handle_data"}
+_PURE_METHODS = {"strip", "lstrip", "rstrip", "lower", "upper", "startswith", "endswith", "get"}
+
+
+def _pure_test(e: ast.AST) -> bool:
+    if T._pure(e):
+        return True
+    if isinstance(e, ast.UnaryOp) and isinstance(e.op, ast.Not):
+        return _pure_test(e.operand)
+    if isinstance(e, ast.BoolOp):
+        return all(_pure_test(v) for v in e.values)
+    if isinstance(e, ast.Call) and isinstance(e.func, ast.Attribute) and e.func.attr in _PURE_METHODS and not e.keywords:
+        return _pure_test(e.func.value) and all(T._pure(a) for a in e.args)
+    return False
+
+
+def _self_attr_root(e: ast.AST) -> Any:
+    """X for an expression rooted at self.X (self.X, self.X.y, self.X[i]); None otherwise"""
+    while isinstance(e, (ast.Attribute, ast.Subscript)):
+        if isinstance(e, ast.Attribute) and isinstance(e.value, ast.Name) and e.value.id == "self":
+            return e.attr
+        e = e.value
+    return None
+
+
+def _drop_unmodelled(fn: ast.AST) -> None:
+    """Statements that cannot touch the modelled parser state: `pass`; assignments of effect-free values to attributes of self
+    outside PARSER_STATE or to locals nothing else reads; method calls on such attributes with effect-free arguments
+    (book-keeping lists); `if <effect-free test>:` around only such statements.  Then trailing parameters with a default that
+    nothing uses any more.  (Anything writing url/dists/active_link/active_skip, calling into other code, raising or returning
+    stays and must match the recorded shape.)"""
+    needed: set = set()
+    for _ in range(20):
+        work = copy.deepcopy(fn)
+        local_writes: List[str] = []
+
+        def irrelevant(st: ast.stmt) -> bool:
+            if isinstance(st, ast.Pass):
+                return True
+            if isinstance(st, ast.Assign) and _pure_test(st.value):
+                names = []
+                for t in st.targets:
+                    root = _self_attr_root(t)
+                    if root is not None and root not in PARSER_STATE:
+                        continue
+                    if isinstance(t, ast.Name) and t.id not in needed:
+                        names.append(t.id)
+                        continue
+                    return False
+                local_writes.extend(names)
+                return True
+            if isinstance(st, ast.Expr) and isinstance(st.value, ast.Call) and isinstance(st.value.func, ast.Attribute):
+                f = st.value.func
+                if f.attr in T.LOG_METHODS and ast.unparse(f.value) in ("LOG", "logger", "logging", "self.logger") \
+                        and all(_pure_test(a) for a in st.value.args) and all(_pure_test(k.value) for k in st.value.keywords):
+                    return True       # a log line whose arguments only apply str methods to effect-free values
+                root = _self_attr_root(st.value.func.value)
+                return root is not None and root not in PARSER_STATE and all(T._pure(a) for a in st.value.args) and not st.value.keywords
+            if isinstance(st, ast.If) and _pure_test(st.test):
+                return all(irrelevant(x) for x in st.body) and all(irrelevant(x) for x in st.orelse)
+            return False
+
+        def clean(body: List[ast.stmt]) -> List[ast.stmt]:
+            out = []
+            for st in body:
+                before = len(local_writes)
+                if not isinstance(st, ast.Pass) and irrelevant(st):
+                    continue
+                del local_writes[before:]
+                for field in ("body", "orelse", "finalbody"):
+                    b = getattr(st, field, None)
+                    if isinstance(b, list) and b and isinstance(b[0], ast.stmt):
+                        nb = [x for x in clean(b) if not isinstance(x, ast.Pass)]
+                        setattr(st, field, nb if (nb or field != "body") else [ast.Pass()])
+                for h in getattr(st, "handlers", []) or []:
+                    h.body = [x for x in clean(h.body) if not isinstance(x, ast.Pass)] or [ast.Pass()]
+                out.append(st)
+            return out
+
+        kept = [st for st in clean(list(work.body)) if not isinstance(st, ast.Pass)] or [ast.Pass()]
+        used = {n.id for st in kept for n in ast.walk(st) if isinstance(n, ast.Name)}
+        clash = {w for w in local_writes if w in used}
+        if clash:                 # a dropped local is read by statements that stay: it is not droppable
+            needed |= clash
+            continue
+        fn.body = kept
+        a = fn.args
+        while a.args and a.defaults and a.args[-1].arg not in used and not a.kwonlyargs and a.vararg is None and a.kwarg is None:
+            a.args.pop()
+            a.defaults.pop()
+        return
+    raise TranslateError("could not separate modelled from unmodelled statements")
+
+
+def _match(rel: str, name: str, fn: ast.AST) -> List[Any]:
+    """fn: the current (normalised) function, already adjusted by the caller.  Compares with the recorded shape and returns
+    the literals indexed by the RECORDED hole numbers (None for holes that only occurred in log lines)."""
+    tmpl, _ = _template(name)
+    if name in PARSER_METHODS:
+        _drop_unmodelled(fn)
+        _drop_unmodelled(tmpl)
+    text, consts = skeleton(fn)
+    want, olds = _renumber(tmpl)
+    if text.strip() != want.strip() or len(olds) != len(consts):
+        import difflib
+        d = "\n".join(list(difflib.unified_diff(want.strip().split("\n"), text.strip().split("\n"), "expected", "current", lineterm=""))[:40])
+        raise TranslateError(f"{rel}:{name}: the code's shape changed, the Gallina model no longer transcribes it:\n{d}")
+    out: List[Any] = [None] * (max(olds) + 1 if olds else 0)
+    for new_i, old_i in enumerate(olds):
+        out[old_i] = consts[new_i]
+    total = len(re.findall(r"\bK\d+\b", SK[name]))
+    out += [None] * max(0, total - len(out))
+    return out
+
+
 def _dl_cond(node: ast.expr) -> str:
     """The two tests of _do_download that decide whether a file in the wheel directory is reused,
     as a boolean expression over: a digest is advertised / the file exists / its digest matches."""
@@ -304,11 +449,7 @@ def read_do_download() -> Tuple[List[Any], str, str]:
     inner[0].test = ast.Name(id="REUSE_INNER", ctx=ast.Load())
     # the error path of the transfer (C15's side) is not part of this model: a status check may be present
     fn.body = [st for st in fn.body if not (isinstance(st, ast.Expr) and ast.unparse(st) == "response.raise_for_status()")]
-    text, consts = skeleton(fn)
-    if text.strip() != SK["_do_download"].strip():
-        import difflib
-        d = "\n".join(list(difflib.unified_diff(SK["_do_download"].strip().split("\n"), text.strip().split("\n"), "expected", "current", lineterm=""))[:40])
-        raise TranslateError(f"pypi.py:_do_download: the code's shape changed, the Gallina model no longer transcribes it:\n{d}")
+    consts = _match("req_compile/repos/pypi.py", "_do_download", fn)
     return consts, c_outer, c_inner
 
 
@@ -327,11 +468,7 @@ def read(rel: str, name: str) -> List[Any]:
             if isinstance(node, ast.ExceptHandler) and node.type is not None and ast.unparse(node.type) in ("MetadataError", "Exception") \
                     and any(isinstance(x, ast.Raise) and x.exc is None for x in node.body):
                 node.type = ast.Name(id="CLEANUP_EXC", ctx=ast.Load())
-    text, consts = skeleton(fn)
-    if text.strip() != SK[name].strip():
-        import difflib
-        d = "\n".join(list(difflib.unified_diff(SK[name].strip().split("\n"), text.strip().split("\n"), "expected", "current", lineterm=""))[:40])
-        raise TranslateError(f"{rel}:{name}: the code's shape changed, the Gallina model no longer transcribes it:\n{d}")
+    consts = _match(rel, name, fn)
     return consts
 
 
